@@ -15,6 +15,12 @@ KINDS = {
     "shift": ("let r = x << (64i32 + z.to_int32());", 110, "shift amount out of bounds"),
     "array_get": ("let r = Array[Int64]::new(1, 2)(x + x);", 103, "array index out of bounds"),
     "array_set": ("let r = 0; Array[Int64]::new(1, 2)(z - x) = 5;", 103, "array index out of bounds"),
+    # the failing access produces a reference to the element (field assignment / mutating method through the index);
+    # an earlier line of the same function already has located instructions
+    "elem_field_set": ("let tq = Array[TP]::new(TP(a = x, b = 2)); let tw = tq(z).a + x;\nlet r = 0; tq(x + x).a = tw;",
+                       103, "array index out of bounds"),
+    "elem_method": ("let tq = Array[TP]::new(TP(a = x, b = 2)); let tw = tq(z).a + x;\nlet r = tw - tw; tq(x + x).bump();",
+                    103, "array index out of bounds"),
     "assert": ("let r = 0; assert(x == z);", 102, "assert failed"),
     "unreachable": ("let r = 0; if x != z { std::unreachable(); }", 1, "unreachable code executed."),
     "fatal": ("let r = 0; if x != z { std::fatal_error(\"boom\"); }", 1, "fatal error: boom"),
@@ -28,8 +34,11 @@ class Src:
         self.lines = []
 
     def add(self, text):
-        self.lines.append(text)
-        return len(self.lines)  # 1-based line number of the added line
+        # a statement may span several source lines: the failing operation is on the last one
+        indent = text[:len(text) - len(text.lstrip())]
+        for i, part in enumerate(text.split("\n")):
+            self.lines.append(part if i == 0 else indent + part)
+        return len(self.lines)  # 1-based line number of the (last) added line
 
     def text(self):
         return "\n".join(self.lines) + "\n"
@@ -118,6 +127,8 @@ def build_unit(case_specs, file_name="unit.dora"):
     """case_specs: list of (kind, [shape innermost ... outermost]).  Returns (source text, [TrapCase])."""
     src = Src()
     src.add("use std::string::Stringable;")
+    src.add("struct TP { a: Int64, b: Int64 }")
+    src.add("impl TP { mutating fn bump() { self.a = self.a + 1; } }")
     cases = []
     for uid, (kind, shapes) in enumerate(case_specs):
         tc = TrapCase("trap:%s:%s" % (kind, ">".join(reversed(shapes))), kind, shapes)
@@ -157,7 +168,7 @@ def specs(quick=True):
         for s in SHAPES:
             out.append((kind, [s]))
     depth2 = list(itertools.product(SHAPES, repeat=2))
-    for kind in (kinds if not quick else ["div0", "add_overflow", "array_get", "assert", "fatal"]):
+    for kind in (kinds if not quick else ["div0", "add_overflow", "array_get", "elem_field_set", "assert", "fatal"]):
         for a, b in depth2:
             out.append((kind, [a, b]))
     if not quick:
